@@ -1,7 +1,10 @@
 pub mod c01;
 pub mod c02;
 pub mod c03;
+pub mod c06;
+pub mod c07;
 pub mod c09;
+pub mod c10;
 pub mod common;
 
 use crate::evidence::Ctx;
@@ -11,7 +14,10 @@ pub fn dispatch(ctx: &Ctx) -> Option<i32> {
         "C01" => c01_check(ctx),
         "C02" => c02_check(ctx),
         "C03" => c03_check(ctx),
+        "C06" => c06_check(ctx),
+        "C07" => c07_check(ctx),
         "C09" => c09_check(ctx),
+        "C10" => c10_check(ctx),
         _ => return None,
     })
 }
@@ -135,5 +141,110 @@ fn c09_check(ctx: &Ctx) -> i32 {
         println!("C09: cells not observed: {missing:?}");
         rep.min_nontrivial = u64::MAX;
     }
+    finish(ctx, agg, rep)
+}
+
+fn c10_check(ctx: &Ctx) -> i32 {
+    let budget = Duration::from_secs(ctx.tier.pick(30, 300));
+    let agg = shard_runs(ctx, "main", ctx.tier.pick(60_000, 3_000_000), budget, Duration::from_secs(60), Arc::new(c10::run_one));
+    let rep = Report {
+        level: "exploration",
+        rule: "one case = one seeded run: 2-8 tagged port-open requests (client connect_ext or ports sent over a port, wait flag, optionally cancelled at poll n) against a listener that inspects and accepts / accepts later / rejects(false|true) / drops requests, uses Listener::accept directly (optionally cancelled at poll n) or is dropped; max_ports 2..8, connect_queue 1..4, all three ports_exhausted policies as a configuration dimension. Non-trivial iff >=2 client requests were outstanding at once on the wire or a connect/accept was cancelled. Distinct by hash(outcomes, listener actions, interleaving signature).".into(),
+        explanation: "Outcome table (accept=>Ok and tags echoed over the pair match on both sides; reject(false)/dropped request/dropped listener=>Rejected; reject(true)/no server port=>RemotePortsExhausted; LocalPortsExhausted and TooManyPendingConnectionRequests only with wait=false and only when truthful), every request resolved by quiescence, no request seen twice by the listener, W5 (unanswered OpenPort <= advertised connect_queue) and W6 on every frame, and the Connect::sent ordering probe. Cfg::ports_exhausted is read by no code path of this tree; requests are judged by the wait flag they ran with (recorded, not a violation).".into(),
+        assumptions: vec!["tags travel as port ids (PortReq::with_id) and over the accepted pair".into()],
+        exhaustive: false,
+        min_nontrivial: ctx.tier.pick(300, 3000),
+        extra: BTreeMap::new(),
+    };
+    finish(ctx, agg, rep)
+}
+
+fn c07_check(ctx: &Ctx) -> i32 {
+    let budget = Duration::from_secs(ctx.tier.pick(30, 300));
+    // cycle test first, alone, so that the process-wide heap counter is not disturbed by other shards
+    let mut agg = crate::evidence::Agg::default();
+    if ctx.replay.is_none() {
+        crate::simnet::set_shard(63);
+        crate::clock::set_thread_prefix("cyc-".into());
+        let out = c07::cycle_test(ctx.seed, ctx.tier.pick(500, 5000));
+        agg.absorb("cycle", 0, ctx.seed, out, 4);
+    }
+    let agg2 = shard_runs(ctx, "main", ctx.tier.pick(20_000, 2_000_000), budget, Duration::from_secs(60), Arc::new(c07::run_one));
+    agg.merge(agg2);
+    let rep = Report {
+        level: "exploration",
+        rule: "one case = one seeded run: 0-4 port pairs (client connects and ports sent over a port), optional traffic, a pending connect / an unanswered request, client clones; every sender, receiver, connect, request, client and listener of both endpoints is dropped in PRNG order interleaved with yields, quiescence points, network delays and H1 deferral of the drop-notification tasks. Non-trivial iff >=2 pairs with drops on both sides. Distinct by hash(drop order, interleaving signature). Plus one cycle test (open/transfer/close cycles on one connection, heap and task count sampled at quiescence after 20% and 100% of the cycles).".into(),
+        explanation: "At quiescence after the last drop both dispatchers must have returned Ok(()) with the transport still open; no internally spawned task may be alive; max_ports port numbers must be allocatable on both endpoints; W6 (no port number reused while open, open+connecting <= max_ports, no frame for a finished port) ran on every frame; heap and task count must not grow with the number of cycles.".into(),
+        assumptions: vec!["internal tasks are counted by hook H1 (thread-local counter), heap by the harness's counting allocator".into()],
+        exhaustive: false,
+        min_nontrivial: ctx.tier.pick(300, 3000),
+        extra: BTreeMap::new(),
+    };
+    finish(ctx, agg, rep)
+}
+
+fn c06_check(ctx: &Ctx) -> i32 {
+    use crate::simnet::Delivery;
+    let budget = Duration::from_secs(ctx.tier.pick(40, 400));
+    crate::simnet::set_shard(63);
+    crate::clock::set_thread_prefix("main-".into());
+    let schedules: Vec<Delivery> = match ctx.tier {
+        crate::evidence::Tier::Quick => vec![Delivery::Eager, Delivery::Random { max_yield: 3, max_burst: 2 }],
+        crate::evidence::Tier::Thorough => vec![
+            Delivery::Eager,
+            Delivery::Random { max_yield: 1, max_burst: 4 },
+            Delivery::Random { max_yield: 3, max_burst: 2 },
+            Delivery::Random { max_yield: 12, max_burst: 1 },
+            Delivery::Random { max_yield: 6, max_burst: 3 },
+            Delivery::Random { max_yield: 2, max_burst: 1 },
+        ],
+    };
+    let h1s: Vec<u64> = ctx.tier.pick(vec![0], vec![0, 30]);
+    let mut agg = crate::evidence::Agg::default();
+    let mut cases: Vec<c06::Case> = Vec::new();
+    let mut clean_frames = Vec::new();
+    for (si, d) in schedules.iter().enumerate() {
+        for h1 in &h1s {
+            for orderly in [false, true] {
+                let clean = c06::run_case(crate::evidence::mix(ctx.seed, si as u64, 99), &c06::Case { fault: None, drop_visible: true, delivery: *d, h1: *h1, sym: false, orderly_end: orderly });
+                clean_frames.push(format!("{:?}/h1={}/orderly={}: {:?} frames", d, h1, orderly, clean.frames));
+                if ctx.replay.is_none() {
+                    agg.absorb("clean", si as u64, ctx.seed, clean.out, 2);
+                }
+                cases.extend(c06::enumerate(clean.frames, *d, *h1, orderly));
+            }
+        }
+    }
+    let n = cases.len() as u64;
+    let cases = Arc::new(cases);
+    let c2 = cases.clone();
+    let agg2 = shard_runs(ctx, "faults", n, budget, Duration::from_secs(60), Arc::new(move |run, seed| {
+        let case = &c2[run as usize];
+        let mut r = c06::run_case(seed, case);
+        if run % 977 == 0 {
+            r.out.sample = Some(serde_json::json!({"fault": format!("{:?}", case.fault), "drop_visible": case.drop_visible, "delivery": format!("{:?}", case.delivery), "fired": r.fault_fired}));
+        }
+        r.out
+    }));
+    let complete = agg2.evaluations == n;
+    agg.merge(agg2);
+    if ctx.replay.is_none() {
+        for (i, sym) in [(0u64, true), (1, false)] {
+            let out = c06::idle_test(crate::evidence::mix(ctx.seed, i, 7), sym);
+            agg.absorb("idle", i, ctx.seed, out, 2);
+        }
+    }
+    let mut extra = BTreeMap::new();
+    extra.insert("clean_runs".into(), serde_json::json!(clean_frames));
+    extra.insert("fault_cases_enumerated".into(), serde_json::json!(n));
+    let rep = Report {
+        level: "fault_enumeration",
+        rule: "fixed chmux workload (handshake, client port, multi-chunk message each way, port sent over a port, message on it, pending accept / closed() / idle recv, optional orderly end); a clean run per (schedule, H1, ending) records F frames per direction; then EVERY (direction, frame index 0..F+1, fault kind in {sink error, stream error, end of stream, black hole both ways, black hole one way}, peer drop visible yes/no) is run. A case is the tuple; all are non-trivial; distinct by the tuple; cases whose fault index lies beyond the frames actually sent are counted separately (faults_not_reached). Plus idle tests (1000 x timeout of virtual idleness, symmetric and asymmetric timeouts).".into(),
+        explanation: "After the fault: the endpoint that observes it directly must have terminated at the next quiescence (no clock advance needed); after 3x(T_A+T_B) virtual seconds every dispatcher and every API future (tracked operation registry) must have completed; dispatcher errors must be transport classes (never Protocol); received messages must be a prefix of the sent ones; an idle healthy connection must survive 1000 timeouts and still carry a message.".into(),
+        assumptions: vec!["timeouts A=10 s, B=60 s (asymmetric) on tokio's paused clock".into(), "fault positions are those of this workload".into()],
+        exhaustive: complete,
+        min_nontrivial: ctx.tier.pick(500, 5000),
+        extra,
+    };
     finish(ctx, agg, rep)
 }
